@@ -96,6 +96,7 @@ var verifC10PathTweaks = []verifC10Tweak{
 		"udp+rtp://h:9000", "udp+rtp://h", "unix+rtp:///tmp/x", "srt://h:8890?streamid=read:x", "moqt://h:8893/ns", "whep://h/p/whep", "wheps://h/p",
 		"rtsp://%zz", "ftp://x", "", "rtsp://$G1:$G2/x", "rtsp+http://h/p", "rtsps+ws://h", "rtsp://", "rtsp:///nohost", "RTSP://h/p", "rtsp+ws://h/$G1")},
 	{"sourceRedirect", l("", "/other", "rtsp://h/x", "/bad path", "notaurl", "/", "/a/../b")},
+	{"name", l("cam1", "other/name", "/bad", "")}, // the json-visible Name member of a path entry: must never replace the key
 	{"srtPublishPassphrase", l("", "short", "0123456789", verifC10Long, verifC10Long[:79])},
 	{"srtReadPassphrase", l("", "short", "0123456789", verifC10Long, verifC10Long[:79], "123456789")},
 	{"sourceOnDemand", l(true, false)},
@@ -235,6 +236,9 @@ func verifC10GenConf(r *verifutil.Rand, rpi bool) map[string]any {
 							pm["source"] = "rpiCamera"
 						}
 					}
+				}
+				if IsValidPathName(name) != nil && (name == "" || name[0] != '~') && r.Chance(1, 3) {
+					pm["name"] = r.Pick("cam1", "ok")
 				}
 				paths[name] = pm
 			}
@@ -642,6 +646,9 @@ var verifC10Regress = []struct {
 	// open: a port "range" that is not a pair is accepted (the rtsp static source then indexes [0] and [1])
 	{"paths:\n  cam:\n    source: rtsp://127.0.0.1:8554/x\n    rtspUDPSourcePortRange: [5]\n", nil, nil},
 	{"pathDefaults:\n  rtspUDPSourcePortRange: []\n", nil, nil},
+	// a `name:` member inside a path entry must not stand in for the (invalid) key
+	{"paths:\n  \"../../outside\":\n    name: cam1\n    record: yes\n", nil, nil},
+	{"paths:\n  \"/bad\":\n    name: ok\n  good:\n    name: \"../x\"\n", nil, nil},
 	{"", nil, []verifC10KV{{"MTX_PATHS_CAM_RTSPUDPSOURCEPORTRANGE", "1,2,3"}}},
 }
 
